@@ -265,8 +265,8 @@ impl<'a> FontRead<'a> for SimpleGlyph {
 
 impl FontWrite for SimpleGlyph {
     fn write_into(&self, writer: &mut crate::TableWriter) {
-        assert!(self.contours.len() < i16::MAX as usize);
-        assert!(self.instructions.len() < u16::MAX as usize);
+        assert!(self.contours.len() <= i16::MAX as usize);
+        assert!(self.instructions.len() <= u16::MAX as usize);
         let n_contours = self.contours.len() as i16;
         if n_contours == 0 {
             // we don't bother writing empty glyphs
@@ -372,6 +372,9 @@ impl crate::validate::Validate for SimpleGlyph {
     fn validate_impl(&self, ctx: &mut crate::codegen_prelude::ValidationCtx) {
         if self.instructions.len() > u16::MAX as usize {
             ctx.report("instructions len overflows");
+        }
+        if self.contours.len() > i16::MAX as usize {
+            ctx.report("contour count overflows");
         }
     }
 }
